@@ -15,7 +15,7 @@ WRAP = -Wl,--wrap=pthread_create,--wrap=pthread_join,--wrap=dlsym,--wrap=epoll_c
 HARNESSES = $(patsubst $(V)/harness/%.c,%,$(wildcard $(V)/harness/c*.c))
 BINS = $(patsubst %,$(B)/h_%,$(HARNESSES))
 
-all: $(BINS) $(B)/h_c19_ctx_mmap $(B)/h_c19_ctx_uctx
+all: $(BINS) $(B)/h_c19_ctx_mmap $(B)/h_c19_ctx_uctx $(B)/h_c19_ctx_split
 
 $(B)/lib/%.o: $(REPO)/src/%.c
 	@mkdir -p $(B)/lib
@@ -39,6 +39,15 @@ $(B)/h_%: $(B)/hobj/%.o $(LIBOBJS) $(RTOBJS) $(B)/hobj/regshim.o
 LIBOBJS_NOCTX = $(filter-out $(B)/lib/fiber_context.o,$(LIBOBJS))
 ICF_MMAP = $(subst -DFIBER_STACK_MALLOC,-DFIBER_STACK_MMAP,$(ICF))
 ICF_UCTX = $(subst -DFIBER_FAST_SWITCHING,,$(ICF))
+ICF_SPLIT = $(subst -DFIBER_STACK_MALLOC,-DFIBER_STACK_SPLIT -fsplit-stack,$(ICF))
+$(B)/lib/fiber_context_split.o: $(REPO)/src/fiber_context.c
+	@mkdir -p $(B)/lib
+	$(CC) $(ICF_SPLIT) -w -MMD -MP -c $< -o $@
+$(B)/hobj/c19_ctx_split.o: $(V)/harness/c19_ctx.c $(V)/sim/sim.h $(V)/harness/common.h
+	@mkdir -p $(B)/hobj
+	$(CC) $(ICF_SPLIT) -DC19_VARIANT=3 -MMD -MP -c $< -o $@
+$(B)/h_c19_ctx_split: $(B)/hobj/c19_ctx_split.o $(B)/lib/fiber_context_split.o $(LIBOBJS_NOCTX) $(RTOBJS) $(B)/hobj/regshim.o
+	$(CC) -fsplit-stack -o $@ $^ $(WRAP),--wrap=syscall -lpthread -ldl
 $(B)/lib/fiber_context_mmap.o: $(REPO)/src/fiber_context.c
 	@mkdir -p $(B)/lib
 	$(CC) $(ICF_MMAP) -w -MMD -MP -c $< -o $@
